@@ -34,7 +34,7 @@ Str(s) == s   \* documentation only: a TLA+ tuple of one-character strings
 (***************************************************************************)
 (* The catalogue.  kind: how Step treats the symbol.                       *)
 (***************************************************************************)
-Visible == {"a", "b", "c", ".", "!", ","}          \* body text
+Visible == {"a", "b", "c", ".", "!", ",", "U+00E4"}          \* body text (U+00E4: a non-ASCII letter)
 \* hidden vocabulary (must never reach the output): j (comments, skipped
 \* text), k (keys, labels, file names), z (option lists), y and x (maths source);
 \* none of these letters occurs in text the filter generates (operator words, proof titles)
